@@ -284,6 +284,25 @@ func buildReport(eng *Engine, prop, tier string, seed int64, cases []*ReplayCase
 	for m, c := range boundCuts {
 		r.Summary = append(r.Summary, fmt.Sprintf("  bound-cut[%d] %s", c, m))
 	}
+	if !eng.filtered {
+		seen := map[string]bool{}
+		for _, h := range eng.harnesses {
+			for a := range h.Asserts {
+				seen[a] = true
+			}
+		}
+		var never []string
+		for l := range eng.staticLabels {
+			if !seen[l] {
+				never = append(never, l)
+			}
+		}
+		sort.Strings(never)
+		cov["assert_labels_never_evaluated"] = never
+		for _, l := range never {
+			r.Summary = append(r.Summary, "  note: assertion never evaluated on any path in this tier: "+l)
+		}
+	}
 	for _, u := range unconfirmed {
 		r.Summary = append(r.Summary, "  UNCONFIRMED "+u)
 	}
